@@ -23,7 +23,7 @@
 
 extern "C" __attribute__((used)) const char* __asan_default_options()
 {
-    return "exitcode=77:detect_leaks=0:abort_on_error=0:handle_abort=1:print_summary=1:detect_stack_use_after_return=0";
+    return "exitcode=77:detect_leaks=0:abort_on_error=0:handle_abort=1:print_summary=1:detect_stack_use_after_return=0:quarantine_size_mb=8:malloc_context_size=5";
 }
 extern "C" __attribute__((used)) const char* __ubsan_default_options()
 {
